@@ -1,6 +1,7 @@
 package main
 
 import (
+	"go/types"
 	"fmt"
 	"regexp"
 	"strings"
@@ -21,6 +22,7 @@ func init() {
 func runC14(c *Ctx) {
 	cliExitDiscipline(c, "R1")
 	c14R2(c)
+	evaluatorConstruction(c, "R6")
 	c.shared("R5", "C03/R1", "a malformed or unreadable input is an error the tool reports with a non-zero status only if the library detects it: the decode loop ends on io.EOF alone and every other decode error is returned", func(o Obligation) bool { return strings.HasSuffix(o.Rule, "/R1") }, runC03)
 	c.note("R3 json-output-path: see json-text-as-data (one string from GetRootJson after a successful run, fmt.Print / WriteString, truncating open) plus the multi-input refusal.")
 	jsonTextAsData(c, "R3")
@@ -323,6 +325,18 @@ func rootsPerValue(c *Ctx, rule string) {
 		if bi, ok := call.Call.Value.(*ssa.Builtin); ok && bi.Name() == "append" {
 			if strings.Contains(call.Type().String(), "Cell") {
 				apps = append(apps, p.RenderShort(call.Call.Args[1]))
+				// every successfully evaluated selector contributes its root, whatever its value
+				for _, sel := range callsIn(ep) {
+					if staticCalleeIs(sel, "lang.EvalExpression") && dominatesInstr(sel, call) && strings.Contains(p.RenderShort(call.Call.Args[1]), "EvalExpression") {
+						var extra []string
+						for _, g := range extraGuardsBetween(p, ep, sel.Block(), call.Block()) {
+							if !(strings.HasPrefix(g, "lang.EvalExpression(") && strings.HasSuffix(g, ")#1 == nil")) {
+								extra = append(extra, g)
+							}
+						}
+						c.check(len(extra) == 0, rule, "selector-root-unconditional", p.InstrPos(call), "the result of every selector is appended", "the root a selector yields is only processed under {"+strings.Join(extra, " ; ")+"}: a selector whose value is filtered out leaves $ (and what -o writes) at the previous root")
+					}
+				}
 			}
 		}
 	})
@@ -347,4 +361,70 @@ func rootsPerValue(c *Ctx, rule string) {
 		miss, extra = diffSets(g2, w2)
 	}
 	c.check(len(miss)+len(extra) == 0, rule, "root-list-contents", p.Pos(ep.Pos()), "one root per selector in order, or the value itself", fmt.Sprintf("the root list is filled with {%s}; expected one EvalExpression(selector i, decoded value) per selector or the decoded value's own cell", strings.Join(apps, " ; ")))
+}
+
+// evaluatorConstruction: selectors are evaluated by an evaluator built like the program's own
+func evaluatorConstruction(c *Ctx, rule string) {
+	p := c.P
+	c.note("%s evaluator-construction: `-r E` behaves as `BEGINFILE { $ = E }` only if the evaluator that runs a selector knows what the program's evaluator knows. Every Evaluator value is built by the one constructor (no composite literal elsewhere), and the constructor itself — not one of its callers — installs the runtime functions (printf, json, num) and the program's functions on every path to its return.", rule)
+	ne := p.LangFunc("NewEvaluator")
+	if ne == nil {
+		c.undecided(rule, "NewEvaluator", "", "anchor not found")
+		return
+	}
+	// composite literals / allocations of Evaluator outside the constructor
+	n := 0
+	for _, fn := range p.Funcs {
+		if !p.InModule(fn) || p.inTestFile(fn) || fn == ne {
+			continue
+		}
+		allInstrs(fn, func(in ssa.Instruction) {
+			a, ok := in.(*ssa.Alloc)
+			if !ok || !isLangNamed(a.Type().(*types.Pointer).Elem(), "Evaluator") {
+				return
+			}
+			// a local that only receives the constructor's result is fine
+			for _, r := range referrersOf(a) {
+				if st, ok := r.(*ssa.Store); ok && st.Addr == ssa.Value(a) {
+					if call, _ := callOf(st.Val); call == nil || !staticCalleeIs(call, "lang.NewEvaluator") {
+						n++
+						c.violated(rule, "evaluator-built-outside-constructor in "+shortName(fn), p.InstrPos(st), "an Evaluator value is assembled outside NewEvaluator: it misses whatever the constructor installs")
+					}
+				}
+			}
+		})
+	}
+	if n == 0 {
+		c.ok(rule, "single-constructor", p.Pos(ne.Pos()), "every Evaluator comes from NewEvaluator")
+	}
+	for _, name := range []string{"addRuntimeFunctions", "(*Evaluator).addProgramFunctions", "(*Evaluator).readRules"} {
+		f := p.LangFunc(name)
+		if f == nil {
+			c.undecided(rule, "installer "+name, "", "anchor not found")
+			continue
+		}
+		sites := p.CallSitesOf(f)
+		inCtor := 0
+		var elsewhere []string
+		for _, cs := range sites {
+			if p.inTestFile(cs.Parent()) {
+				continue
+			}
+			if cs.Parent() == ne {
+				inCtor++
+				covers := true
+				for _, r := range returnsOf(ne) {
+					if !dominatesInstr(cs, r) {
+						covers = false
+					}
+				}
+				c.check(covers, rule, "installed-by-constructor "+name, p.InstrPos(cs), "called on every path of the constructor", "the constructor does not call "+name+" on every path to its return")
+			} else {
+				elsewhere = append(elsewhere, shortName(cs.Parent()))
+			}
+		}
+		if inCtor == 0 {
+			c.violated(rule, "installed-by-constructor "+name, p.Pos(ne.Pos()), "NewEvaluator does not call "+name+" (called from {"+strings.Join(dedup(elsewhere), ", ")+"} instead): an evaluator built for a root selector lacks it, so `-r 'num($.x)'` fails where `BEGINFILE { $ = num($.x) }` works")
+		}
+	}
 }
